@@ -12,14 +12,14 @@ import (
 
 // C06 — HTML output has a fixed tag skeleton and cell text can never become markup.
 
-var c06Atoms = []string{`<`, `>`, `&`, `"`, `'`, `&amp;`, `&#60;`, `&lt`, `</td><script>alert(1)</script>`, `<!--`, `]]>`, `a b`, "\n", `x" onmouseover="y`, `</style>`, "{{.}}", "=", "`"}
+var c06Atoms = []string{`<`, `>`, `&`, `"`, `'`, `&amp;`, `&#60;`, `&lt`, `</td><script>alert(1)</script>`, `<!--`, `]]>`, `a b`, "\n", `x" onmouseover="y`, `</style>`, "{{.}}", "=", "`", "é", "ｗ", "\u2028"}
 
 func init() {
 	register(&Check{
 		ID:        "C06",
 		Level:     "exploration",
 		Technique: "bounded exhaustive input enumeration (markup-hostile atoms and all ordered pairs in every text context; all small shapes with separators anywhere) rendered by the real code and tokenised by an independent strict tag/text tokenizer",
-		Rule: "family hostile-text: each of 18 atoms and every ordered pair in 7 contexts (header cell, body cell, caption, id, class, row-class generator value, all at once); " +
+		Rule: "family hostile-text: each of 21 atoms and every ordered pair in 7 contexts (header cell, body cell, caption, id, class, row-class generator value, all at once); " +
 			"family wrapper-lifecycle: every sequence of <=5 (thorough 6) operations {set generator A, set generator B, set caption, set id+class, add row, add separator, Render} on one long-lived wrapper, each Render validated against the configuration current at that moment; family shapes: header none/0..3 cells, <=4 rows (thorough <=5) each separator or 0..3 cells, with and without row-class generator, template name empty or set, rendered twice on the same wrapper; " +
 			"non-trivial = text containing a markup-significant character, or a shape with separators/zero-cell rows/no header; distinct by input",
 		Assumptions: []string{"NUL and invalid UTF-8 are outside the alphabet (html/template replaces them by design)", "whitespace between structural tags is ignored"},
@@ -461,6 +461,26 @@ func runC06(x *X) {
 			return
 		}
 		c06Validate(x, &c06Input{g: g, gen: true}, g, []string{"rows_shared_with_another_table"}, out, calls, 0)
+	})
+	long := LongTexts("<")
+	x.Explore("long-texts", ExploreOpts{ShardDepth: 2, Bound: fmt.Sprintf("4 contexts x %d long texts (63..1025 bytes, with an angle bracket in the middle/at the end, multi-byte, 40 lines)", len(long))}, func(c *Chooser) {
+		ctx := c.Choose(4)
+		s := long[c.Choose(len(long))]
+		in := &c06Input{g: &Grid{HasHeader: true, Header: []string{"h1", "h2"}, Rows: []GridRow{{Cells: []string{"c1", "c2"}}}}}
+		switch ctx {
+		case 0:
+			in.g.Header[1] = s
+		case 1:
+			in.g.Rows[0].Cells[0] = s
+		case 2:
+			in.caption = s
+		case 3:
+			in.class = s
+		}
+		c.Logf("context=%d text of %d bytes", ctx, len(s))
+		x.Transition(1)
+		x.Nontrivial(fmt.Sprint(ctx, len(s), hashStr(s)))
+		c06Check(x, c, in, []string{"long_text"})
 	})
 	wide := WideGrids()
 	x.Explore("wide", ExploreOpts{ShardDepth: 2, Bound: "1 table of 56 rows and 4 tables of 10-13 columns x generator on/off x a hostile text in each column position in turn"}, func(c *Chooser) {
